@@ -74,6 +74,8 @@ def position_oracles(run, want):
         script = run.script_of(gid)
         root = script[0][4:] if script else "?"
         moves_so_far = []
+        rules = run.rules_line(gid) if "C01" in want else []
+        ply_no = -1
         for i, p in enumerate(plies):
             if p.obs is None:
                 break
@@ -81,6 +83,7 @@ def position_oracles(run, want):
                 if p.move == "none":
                     continue
                 moves_so_far.append(p.move)
+            ply_no += 1
             if i >= len(sp) or not sp[i]["ok"]:
                 # the spec parser rejects a FEN the engine exported: that is a C11 failure
                 if "C11" in want:
@@ -102,7 +105,16 @@ def position_oracles(run, want):
                           or f14.split()[2] != "-" or f14.split()[3] != "-")
             if nontrivial:
                 stats["nontrivial"].add(f14)
-            # --- C01: checked list = legal set, no repeats; unchecked = superset, extras only expose the king
+            # --- C01, judged on the position the RULES reach from the root (so that a wrong right or en-passant
+            #     file in the engine's own state cannot hide a wrong move list)
+            if "C01" in want and ply_no < len(rules) and rules[ply_no].get("sane") == "1" and p.gend:
+                rl = rules[ply_no]
+                legal_r = sorted(x for x in rl.get("legal", "").split(",") if x)
+                cu_r = sorted(uci_of_desc(d) for d in (p.gend["checked"].split(",") if p.gend.get("checked") else []))
+                if cu_r != legal_r:
+                    fails["C01"].append(("after %s from %s the checked move list differs from the legal moves of the position the rules prescribe (%s): missing %s extra %s" % (
+                        " ".join(moves_so_far[-6:]), root, rl.get("render", "").replace("_", " "), sorted(set(legal_r) - set(cu_r)), sorted(set(cu_r) - set(legal_r))),
+                        dict(ctx, expected=legal_r, got=cu_r, rules_position=rl.get("render", "").replace("_", " "))))
             if "C01" in want and s.get("sane") == "1":
                 if cu != legal:
                     missing = sorted(set(legal) - set(cu))
@@ -152,8 +164,13 @@ def position_oracles(run, want):
                 kt = "e" if " ktab=e " in p.dump else "m"
                 exp = s.get("evale") if kt == "e" else s.get("evalm")
                 if p.obs["score"] != exp:
-                    fails["C16"].append(("score %s of %s differs from the piece-square sum %s (king table %s)" % (p.obs["score"], fen, exp, kt),
-                                         dict(ctx, expected=exp, got=p.obs["score"], king_table=kt)))
+                    c16 = dict(ctx, expected=exp, got=p.obs["score"], king_table=kt)
+                    try:
+                        if not (-32768 <= int(exp) <= 32767):
+                            c16["class"] = "sum_outside_i16"       # known finding C16-K1: the sum does not fit the i16 score
+                    except (TypeError, ValueError):
+                        pass
+                    fails["C16"].append(("score %s of %s differs from the piece-square sum %s (king table %s)" % (p.obs["score"], fen, exp, kt), c16))
                 if i == 0 and (kt == "e") != (s.get("endgame") == "1"):
                     fails["C16"].append(("imported position %s uses king table %s but the phase rule says endgame=%s" % (fen, kt, s.get("endgame")), ctx))
             # --- C20: show agrees with the game; the record names what was played
@@ -303,7 +320,24 @@ def check_C11(chk):
                           "as C01.")
 
 
+C16_K1_WITNESS = "QQQQQQQk/QQQQQQQ1/QQQQQQQQ/QQQQQQQQ/QQQQQQQQ/QQQQQQQQ/QQQQQQQQ/KQQQQQQQ b - - 0 1"
+
+
+def replay_known_C16(chk):
+    """the listed known finding is replayed on every run: if it still fails it is reported as KNOWN-FINDING"""
+    a = run_blocks(HARNESS, [["# k", "new " + C16_K1_WITNESS, "obs"]], nshards=1).get("k", [])
+    b = run_blocks(SPECDRIVER, [["# k", "spec " + C16_K1_WITNESS]], nshards=1).get("k", [])
+    if len(a) >= 2 and a[1].startswith("obs ") and b and b[0].startswith("spec ok"):
+        got = parse_kv(a[1])[1].get("score")
+        exp = parse_kv(b[0])[1].get("evalm")
+        sane = parse_kv(b[0])[1].get("sane")
+        if got != exp:
+            chk.violation("score %s of %s differs from the piece-square sum %s (sane=%s)" % (got, C16_K1_WITNESS, exp, sane),
+                          {"fen": C16_K1_WITNESS, "expected": exp, "got": got, "class": "sum_outside_i16", "kind": "replay of known finding C16-K1"})
+
+
 def check_C16(chk):
+    replay_known_C16(chk)
     return position_check(chk, RULE_PLAYOUT + " Oracle: score = EvalSpec.eval with the king table in force for both kings; imported positions use the endgame table iff the phase rule says so.",
                           "as C01.")
 
